@@ -17,7 +17,8 @@ func NewMixedNode(lex lexeme.LexEvent) *MixedNode {
 	n := MixedNode{
 		baseNode: newBaseNode(lex),
 	}
-	n.setJsonType(json.Guess(lex.Value()).JsonType())
+	// The lexeme of a type shortcut may end with the blanks that follow it.
+	n.setJsonType(json.Guess(lex.Value().TrimSpaces()).JsonType())
 	return &n
 }
 
